@@ -9,6 +9,7 @@ filter construction, finalize(), set_persistent_data(), the real start on the vi
 import asyncio
 import collections
 import collections.abc
+import re
 import types
 import warnings
 
@@ -36,7 +37,11 @@ RULE = ("random construction programs over <= 8 blocks (1..3 Inputs, 1..5 CBlock
         "calling check_signature() with expectations None / n / (lo, hi) with open bounds / malformed, "
         "connected with matching shapes (sizes at both bounds of the ranges) or with one mismatch class: "
         "empty or non-empty group for a single input, single input for a group, size just outside the "
-        "bounds, missing / extra input name; every group is handed over in one of the forms tuple, list, deque, "
+        "bounds, missing / extra input name; FuncBlocks with a function of 0..3 positional-or-keyword and 0..2 "
+        "keyword-only parameters with / without defaults, *args, **kwargs, unpack on / off, connected with what the "
+        "function accepts or with too many / too few positional inputs, an unknown keyword, a keyword for a "
+        "parameter given by position, a missing one; check_signature() called directly with what its message names "
+        "compared; every group is handed over in one of the forms tuple, list, deque, "
         "user-defined Sequence, range, iterator, generator expression, map object (named groups) or unpacked "
         "from such an iterable (unnamed group) -- the protocol line and the oracle's expectation contain the "
         "member list only, so every form must give the connection data of the tuple form. A case is "
@@ -167,6 +172,68 @@ def _assign_forms(rng, pos, named):
     return rng.choice(FORMS) if pos and rng.random() < 0.5 else 'tuple'
 
 
+PARAM_NAMES = ['a', 'b', 'g', 'h', 'input', 'x']
+
+
+def _gen_fsig(rng):
+    """the function of a FuncBlock: positional-or-keyword and keyword-only parameters with / without a
+    default, *args, **kwargs; called with the unnamed group unpacked or as one argument"""
+    names = rng.sample(PARAM_NAMES, rng.randint(0, 5))
+    npos = rng.randint(0, min(3, len(names)))
+    pos = [[n, rng.random() < 0.4] for n in names[:npos]]
+    seen = False
+    for prm in pos:                          # a parameter without default cannot follow one with a default
+        seen = seen or prm[1]
+        prm[1] = seen
+    kwonly = [[n, rng.random() < 0.4] for n in names[npos:npos + rng.randint(0, 2)]]
+    return {'unpack': rng.random() < 0.7, 'pos': pos, 'va': rng.random() < 0.35, 'kwonly': kwonly,
+            'vk': rng.random() < 0.3}
+
+
+def _func_connect(rng, ref, fsig):
+    """inputs for a FuncBlock: mostly what the function accepts, else too many / too few positional
+    inputs, an unknown keyword, a keyword for a parameter already given by position, a missing one"""
+    params = [n for n, _ in fsig['pos']]
+    npos = rng.choice([0, 0, 1, len(params), len(params), len(params) + 1, rng.randint(0, 3)])
+    pos = [ref() for _ in range(npos)]
+    named = []
+    used = params[:npos] if fsig['unpack'] else params[:1]
+    for n, has_default in fsig['pos'] + fsig['kwonly']:
+        if n in used:
+            if rng.random() < 0.12:
+                named.append([n, ['single', ref()]])          # multiple values
+            continue
+        if not has_default or rng.random() < 0.5:
+            if rng.random() < 0.9:
+                named.append([n, rng.choice([['single', ref()], ['group', [ref() for _ in range(rng.randint(0, 2))]]])])
+    if rng.random() < 0.2:
+        extra = rng.choice([n for n in PARAM_NAMES + ['z'] if n not in [k for k, _ in named]])
+        named.append([extra, ['single', ref()]])
+    rng.shuffle(named)
+    if not pos and not named:
+        named.append(['z', ['single', ref()]])
+    return pos, named
+
+
+def make_func(fsig):
+    parts = [n + ('=None' if d else '') for n, d in fsig['pos']]
+    if fsig['va']:
+        parts.append('*rest_')
+    elif fsig['kwonly']:
+        parts.append('*')
+    parts += [n + ('=None' if d else '') for n, d in fsig['kwonly']]
+    if fsig['vk']:
+        parts.append('**kw_')
+    return eval('lambda ' + ', '.join(parts) + ': None')       # only names from PARAM_NAMES: no injection
+
+
+def _fsig_line(fsig):
+    def prm(l):
+        return ','.join(n + ('=' if d else '') for n, d in l) or '-'
+    return (f"func:{1 if fsig['unpack'] else 0}:{prm(fsig['pos'])}:{1 if fsig['va'] else 0}:"
+            f"{prm(fsig['kwonly'])}:{1 if fsig['vk'] else 0}")
+
+
 def _gen_esig(rng):
     """expected signature of a custom block: {input name: None | n | (lo, hi) | malformed}"""
     keys = rng.sample(['_', 'a', 'b', 'g', 'src'], rng.choice([0, 1, 1, 2, 2, 3]))
@@ -239,6 +306,8 @@ def _gen_connect(rng, st, cls, bad=None, esig=None):
     pos, named = [], []
     if cls == 'sig':
         return _sig_connect(rng, ref, esig)
+    if cls == 'func':
+        return _func_connect(rng, ref, esig)
     if cls == 'not':
         pos = [ref()]
         if bad == 'wrong_signature':
@@ -307,8 +376,8 @@ def gen_scenario(rng, bad=None):
         inv_first.sort(key=len, reverse=True)
         inv_pool = (inv_first[:rng.choice([1, 2, 3])] + inv_pool)[:3]
     st = {'planned': planned, 'created': [], 'inv_pool': inv_pool}
-    classes = {c: rng.choice(['any', 'any', 'not', 'not', 'ovr', 'sig', 'sig']) for c in cnames}
-    esigs = {c: _gen_esig(rng) for c in cnames}
+    classes = {c: rng.choice(['any', 'any', 'not', 'not', 'ovr', 'sig', 'sig', 'func', 'func']) for c in cnames}
+    esigs = {c: (_gen_fsig(rng) if classes[c] == 'func' else _gen_esig(rng)) for c in cnames}
     todo = [('s', n) for n in snames] + [('c', n) for n in cnames]
     rng.shuffle(todo)
     pending_connect = []
@@ -347,7 +416,7 @@ def gen_scenario(rng, bad=None):
             if k == 's':
                 ops.append(['s', n])
             else:
-                ops.append(['c', classes[n], n] + ([esigs[n]] if classes[n] == 'sig' else []))
+                ops.append(['c', classes[n], n] + ([esigs[n]] if classes[n] in ('sig', 'func') else []))
                 pending_connect.append(n)
             st['created'].append(n)
         else:
@@ -397,6 +466,11 @@ def gen_scenario(rng, bad=None):
         ops.append(['slot', rng.choice(['event', 'ifout', 'addout']), ['n', rng.choice(['zz', '_zz', '_not__s0', ''])]])
     if bad == 'dup_block_name':
         ops.append(['s', rng.choice(st['created'])])
+
+    # ---- check_signature() called directly: what the error message names is compared as well
+    for cn in cnames:
+        if classes[cn] in ('not', 'ovr', 'sig') and rng.random() < 0.7:
+            ops.append(['chk', cn])
 
     # ---- the end game
     if rng.random() < 0.2:
@@ -483,6 +557,34 @@ def _py_esig(esig):
     return out
 
 
+def _parse_sig_message(msg, order):
+    """what the ValueError of check_signature names -> canonical text (names only, sorted / in esig order)"""
+    def names(l):
+        return ','.join('.' + n for n in sorted(l)) or '-'
+    m = re.match(r"check_signature: input '([^']*)': invalid value", msg)
+    if m:
+        return 'malformed .' + m.group(1)
+    if not msg.startswith('Not connected correctly: '):
+        return 'other'
+    body = msg[len('Not connected correctly: '):]
+    if body.startswith('unexpected: ') or body.startswith('missing: '):
+        body = re.sub(r" \(did you mean [^)]*\)", '', body)
+        mm = re.match(r"(?:unexpected: (?P<u>.*?))?(?:(?:, )?missing: (?P<m>.*))?$", body)
+        u = re.findall(r"'([^']*)'", mm.group('u') or '')
+        mi = re.findall(r"'([^']*)'", mm.group('m') or '')
+        return f'names u={names(u)} m={names(mi)}'
+    if not body.strip():
+        return 'names u=- m=-'
+    items = []
+    for part in body.split('; '):
+        head = part.split(':')[0]
+        items.append(head[len('group '):] if head.startswith('group ') else head)
+    if any(x not in order for x in items):
+        return 'other'
+    items.sort(key=order.index)
+    return 'values ' + ','.join('.' + n for n in items)
+
+
 def _esig_line(esig):
     def one(spec):
         if spec is None:
@@ -498,6 +600,8 @@ def _esig_line(esig):
 def _mk_block(kind, name, esig=None):
     if kind == 'sig':
         return SigBlock(name, esig=_py_esig(esig))
+    if kind == 'func':
+        return edzed.FuncBlock(name, func=make_func(esig), unpack=esig['unpack'])
     if kind == 's':
         return edzed.Input(name, initdef=0)
     if kind == 'not':
@@ -560,6 +664,7 @@ class _Run:
         self.lines, self.trace, self.steps, self.snaps = [], [], [], []
         self.started = False
         self.forms = []
+        self.classes = {}
         self.emit('reset', 'ok')
 
     def emit(self, line, reply):
@@ -708,12 +813,14 @@ class _Run:
         kind = op[0]
         if kind in ('s', 'c'):
             cls, name = ('s', op[1]) if kind == 's' else (op[1], op[2])
-            esig = op[3] if cls == 'sig' else None
+            esig = op[3] if cls in ('sig', 'func') else None
             line = (f'sblock .{name}' if kind == 's' else
-                    f'cblock sig:{_esig_line(esig)} .{name}' if cls == 'sig' else f'cblock {cls} .{name}')
+                    f'cblock sig:{_esig_line(esig)} .{name}' if cls == 'sig' else
+                    f'cblock {_fsig_line(esig)} .{name}' if cls == 'func' else f'cblock {cls} .{name}')
             try:
                 blk = _mk_block(cls, name, esig)
                 self.blocks[name] = blk
+                self.classes[name] = (cls, esig)
                 self.emit(line, 'ok')
                 self.steps.append(['add', name, 'ok', cls, esig])
             except Exception as err:
@@ -808,6 +915,24 @@ class _Run:
             res = self.start()
             self.emit('start', res)
             self.steps.append(['start', 'ok' if res == 'ok' else 'err', was])
+        elif kind == 'chk':
+            blk = self.blocks.get(op[1])
+            cls = self.classes.get(op[1])
+            if not isinstance(blk, edzed.CBlock) or cls is None or cls[0] not in ('not', 'ovr', 'sig'):
+                return
+            esig = ({'_': 1} if cls[0] == 'not' else {'input': None, 'override': None} if cls[0] == 'ovr'
+                    else _py_esig(cls[1]))
+            try:
+                got = blk.check_signature(esig)
+                reply = 'ok' if got == blk.input_signature() else 'err BadReturn'
+            except edzed.EdzedInvalidState:
+                reply = 'err InvalidState'
+            except ValueError as err:
+                reply = 'err ValueError ' + _parse_sig_message(str(err), list(esig))
+            except Exception as err:
+                reply = 'err ' + err_kind(err)
+            self.emit(f'chk .{op[1]}', reply)
+            self.steps.append(['chk', op[1], reply])
         elif kind == 'dump':
             self.dump()
 
@@ -858,7 +983,7 @@ def run_impl(scn):
     tags.append(f'inverters={ninv}')
     specs = {b: {'pos': p, 'named': n} for b, (p, n) in run.specs.items()}
     for st in run.steps:
-        if st[0] == 'add' and st[2] == 'ok' and st[3] in ('not', 'ovr', 'sig'):
+        if st[0] == 'add' and st[2] == 'ok' and st[3] in ('not', 'ovr', 'sig', 'func'):
             tags += [f'shape={c}' for c in set(_shape_cases(st[3], st[4], specs.get(st[1])))]
     tags += [f'form={f}' for f in sorted(set(run.forms))]
     res = {'lines': run.lines, 'trace': run.trace, 'tags': tags, 'nontrivial': nconn > 0,
@@ -870,13 +995,27 @@ def run_impl(scn):
 
 # ---------------------------------------------------------------- independent oracle
 
-MISMATCH = {'unconnected', 'keys_differ', 'empty_group_for_single', 'group_for_single', 'single_for_group',
+MISMATCH = {'func_not_callable', 'unconnected', 'keys_differ', 'empty_group_for_single', 'group_for_single', 'single_for_group',
             'size_differs', 'below_minimum', 'above_maximum', 'malformed_expectation'}
 
 
 def _shape_cases(cls, esig, spec):
     """documented rule of check_signature applied to what was connected: labels of the cases met;
     the block must refuse to start iff a label is in MISMATCH"""
+    if cls == 'func':
+        # the function must be callable with the inputs as FuncBlock passes them (docs/cblocks.rst)
+        n, kw = 0, []
+        for k, e in (_expected_norm(spec['pos'], spec['named']) if spec else []):
+            if k == '_':
+                n = len(e)
+            else:
+                kw.append(k)
+        args = [0] * n if esig['unpack'] else [tuple([0] * n)]
+        try:
+            make_func(esig)(*args, **{k: 0 for k in kw})
+            return ['func_callable']
+        except TypeError:
+            return ['func_not_callable']
     if cls == 'not':
         esig = [['_', 1]]
     elif cls == 'ovr':
